@@ -104,6 +104,34 @@ def _genericity():
     return out
 
 
+def _auto_pins(n, seed):
+    """a few concrete assignments of all registered inputs (corner values), used only to look for a counterexample
+    when the full query timed out"""
+    import random
+
+    import numpy as np
+    import torch
+
+    rnd = random.Random(seed)
+    fpal_r = [0.0, 1.0, -1.0, 0.5, 2.0, -3.0, 0.25, 7.0]
+    fpal_f = fpal_r + [float("nan"), float("inf"), float("-inf"), 1e30]
+    pins = []
+    for _ in range(n):
+        pin = []
+        for name, t in T.ctx().inputs.items():
+            shape = tuple(t.sym.shape)
+            if t.dtype == torch.bool:
+                val = torch.tensor(np.array([rnd.random() < 0.6 for _ in range(int(np.prod(shape)) or 1)]).reshape(shape))
+            elif t.dtype.is_floating_point:
+                pal = fpal_f if T.ctx().mode == "F" else fpal_r
+                val = torch.tensor(np.array([rnd.choice(pal) for _ in range(int(np.prod(shape)) or 1)], dtype=float).reshape(shape), dtype=t.dtype)
+            else:
+                val = torch.tensor(np.array([rnd.randrange(0, 3) for _ in range(int(np.prod(shape)) or 1)]).reshape(shape), dtype=t.dtype)
+            pin.append((t, val))
+        pins.append(pin)
+    return pins
+
+
 class Recorder:
     def __init__(self, prop, task, functions=()):
         self.prop = prop
@@ -147,19 +175,22 @@ class Recorder:
     def prove(self, name, goal, *, replay=None, key=None, required=True, timeout_ms=30000, extra=(), tactics=None, what="", pins=None):
         """goal must be entailed by the context. replay: callable(model) -> python source of a script exiting 1 iff
         the violation shows on the real code (or None when no concrete replay is possible)."""
-        if len(self.violations) >= 3:
+        if len(self.violations) >= 3 or len(self.inconclusive) >= 4:
+            # a broken tree can make every remaining obligation slow: stop after a few violations / inconclusive ones
             self.skipped_after_violations += 1
             return None
         self.obligations += 1
         v = T.prove(goal, timeout_ms=timeout_ms, extra=extra, tactics=tactics)
         full = f"{self.task}:{name}"
         if os.environ.get("VERIF_DEBUG"):
-            print(f"[dbg] {full}: {v.status} {v.seconds:.2f}s {v.tactic}", flush=True)
+            print(f"[dbg] {full}: {v.status} {v.seconds:.2f}s {v.tactic} {v.reason[:200] if v.status == chr(117)+chr(110)+chr(107)+chr(110)+chr(111)+chr(119)+chr(110) else str()}", flush=True)
         if v.status == "unsat":
             self.discharged += 1
             if self.obligations <= 3:
                 self.sample({"obligation": full, "verdict": "unsat", "s": round(v.seconds, 3), "tactic": v.tactic})
             return True
+        if v.status == "unknown" and not pins and os.environ.get("VERIF_AUTOPIN", "1") == "1":
+            pins = _auto_pins(3, int(os.environ.get("VERIF_SEED", "0") or 0) + self.obligations)
         if v.status == "unknown" and pins:
             # the full query timed out: re-ask it with the inputs pinned to designated corner points (still a solver
             # query, but a cheap one). A sat answer there is a genuine counterexample; unsat proves nothing.
@@ -184,7 +215,7 @@ class Recorder:
         blocking = []
         # prefer a *generic* counterexample (inputs non-zero, not one, pairwise distinct): abstracted functions make
         # degenerate models (all zeros) uninformative when replayed with the true functions
-        gen = _genericity()
+        gen = _genericity() if T.ctx().mode == "R" else []
         if gen:
             vg = T.prove(goal, timeout_ms=min(timeout_ms, 15000), extra=list(extra) + gen)
             if vg.status == "sat":
@@ -215,7 +246,7 @@ class Recorder:
             if not diff:
                 break
             blocking.append(z3.Or(*diff))
-            v2 = T.prove(goal, timeout_ms=timeout_ms, extra=list(extra) + blocking)
+            v2 = T.prove(goal, timeout_ms=min(timeout_ms, 20000), extra=list(extra) + blocking)
             if v2.status != "sat":
                 break
             model = v2.model
